@@ -16,10 +16,13 @@ Open Scope N_scope.
 
 Module C18.
 
+(* what is observed: the result of config.Load and, for a sample of the cases, what
+   `layercake status` showed when run with the same switches and environment *)
+Record obs := MkObs { o_load : outcome; o_bin : option binview }.
 Record case := MkCase {
   c_env : env;                       (* switches, environment, cwd, file system *)
-  c_obs : outcome;                   (* what config.Load did *)
-  c_bin : option binview }.          (* what `layercake status` showed (sampled) *)
+  c_binrun : bool;                   (* a comparable run of the binary was made *)
+  c_obs : obs }.
 
 Definition errclass_beq (a b : errclass) : bool :=
   match a, b with
@@ -40,7 +43,11 @@ Definition binview_beq (a b : binview) : bool :=
   | _, _ => false
   end.
 
-Definition model (c : case) : outcome := load (c_env c).
+Definition obs_beq (a b : obs) : bool :=
+  outcome_beq (o_load a) (o_load b) && opt_beq binview_beq (o_bin a) (o_bin b).
+
+Definition model (c : case) : obs :=
+  let r := load (c_env c) in MkObs r (if c_binrun c then Some (bin_view r) else None).
 
 (* ------------------------------------------------------------------ documented settings *)
 (* numbering: 1 BASEPATH 2 CONFIGFILE 3 LAYERS 4 BUILDROOT 5 BINPKGS 6 GENERATED_FILES
@@ -202,8 +209,13 @@ Definition paths_ok (o : outcome) : bool :=
   | _ => true
   end.
 
-Definition spec (c : case) (o : outcome) : bool :=
-  paths_ok o && match reference (c_env c) with RUnspec => true | RRes r => outcome_beq o r end.
+Definition spec (c : case) (o : obs) : bool :=
+  paths_ok (o_load o)
+  && match reference (c_env c) with
+     | RUnspec => true
+     | RRes r => outcome_beq (o_load o) r
+                 && match o_bin o with Some b => binview_beq b (bin_view r) | None => true end
+     end.
 
 (* ------------------------------------------------------------------ domain of the model *)
 Definition parent_of (p : bytes) : bytes := path_of (tl (rev (comps p))).
@@ -231,9 +243,6 @@ Definition kf_env (e : env) : N :=
   if existsb (fun f => uses_doc_only_key (fst f)) chain then 1 else 0.
 Definition kf (c : case) : N := kf_env (c_env c).
 
-Definition corr (c : case) : bool :=
-  outcome_beq (model c) (c_obs c)
-  && match c_bin c with None => true | Some b => binview_beq (bin_view (model c)) b end.
-
-Definition verdict (c : case) : N := mkverdict (wf c) (corr c) (spec c (c_obs c)) (kf c).
+Definition verdict (c : case) : N :=
+  mkverdict (wf c) (obs_beq (model c) (c_obs c)) (spec c (c_obs c)) (kf c).
 End C18.
